@@ -240,6 +240,12 @@ pub fn big(kind: &str, n: usize) {
         "countnest" => format!("{}a{{5}}{}", "(?:".repeat(n), "){5}".repeat(n)),
         "countnest2" => format!("{}ab{{2,3}}{}", "(?:".repeat(n), "){2}".repeat(n)),
         "altnest" => format!("{}a{}", "(?:b|".repeat(n), ")".repeat(n)),
+        // the same name in two DIFFERENT groups (both can participate: early error) with n groups in between: the
+        // enclosing-group ordinals of the duplicate-name pre-scan must not alias (e.g. modulo 2^16)
+        "dupwrap" => format!("(?:(?<a>x)|y){}(?:y|(?<a>x))", "(?:)".repeat(n)),
+        "dupwraplook" => format!("(?:(?<a>x)|y){}(?:y|(?<a>x))", "(?=)".repeat(n)),
+        // control: the same name in two alternatives of ONE group, n groups inside the second alternative: valid
+        "dupwrapok" => format!("(?:(?<a>x)|{}(?<a>y))", "(?:)".repeat(n)),
         _ => panic!("unknown kind"),
     };
     let flags = if kind == "classnest" || kind == "qstrings" || kind.starts_with("sibv") { "v" } else { "" };
